@@ -51,10 +51,14 @@ type FuncContract struct {
 	Ghosts      []string
 	GhostDecls  []GhostDecl   // ghost NAME = INIT: integer ghost variables, initialised at entry
 	GhostSteps  []GhostUpdate // site append: ghost NAME = EXPR: updates executed at every append site, in order
+	StoreReq    map[string][]Clause      // "field#n" -> obligations before the n-th store to that field ($new is the stored value)
+	StoreUse    map[string][]*CExpr      // "field#n" -> lemma instances assumed at that store
+	StoreGhost  map[string][]GhostUpdate // "field#n" -> ghost updates at that store (evaluated before it)
 	StoreSites  map[string][]string // field name -> the only operations whose result may be stored into that field ("append", callee keys)
 	CallGhost   map[string][]GhostUpdate // callsite SIG: ghost NAME = EXPR: updates after a call through a function value ($result)
 	SafetyOff   map[string]string   // safety class -> reason (not claimed)
 	InlineCalls []string            // callees to inline here even though they have a contract
+	HavocKeeps  map[string][]string // callee -> struct types whose fields the abstraction keeps (justified structurally, keeps.go)
 	HavocCalls  []string            // callees abstracted by "anything may have happened to the heap" (sound over-approximation)
 	CallSites   map[string][]Clause // signature string -> obligations at every call through a function value of that type
 	Unclaimed   map[string]string   // obligation class (e.g. "post:foo") -> reason it is not claimed
@@ -112,6 +116,8 @@ type Contracts struct {
 	Lemmas          map[string]*Lemma
 	Order           []string // func keys in file order
 	Scan            []string // lines containing assume/admit/trusted
+	FieldRanges     map[string][2]int64 // heap key -> assumed value range of an integer field (standing assumption, listed in the evidence)
+	FieldRangeWhy   map[string]string
 }
 
 var clauseKeywords = map[string]bool{"requires": true, "ensures": true, "loop": true, "modifies": true, "serves": true,
@@ -290,6 +296,26 @@ func (cs *Contracts) parseFile(pkg, file, data string) error {
 				cs.CallbackEnsures[rest] = ex
 			}
 			cs.Callbacks[rest] = f[1]
+			cur = nil
+			continue
+		}
+		if isTop && first == "fieldrange" {
+			// fieldrange pkg.Type.field LO HI reason...
+			f := strings.Fields(trimmed)
+			if len(f) < 4 {
+				return fmt.Errorf("%s:%d: fieldrange pkg.Type.field LO HI reason", file, ln)
+			}
+			lo, err1 := strconv.ParseInt(f[2], 0, 64)
+			hi, err2 := strconv.ParseInt(f[3], 0, 64)
+			if err1 != nil || err2 != nil {
+				return fmt.Errorf("%s:%d: fieldrange bounds", file, ln)
+			}
+			if cs.FieldRanges == nil {
+				cs.FieldRanges = map[string][2]int64{}
+				cs.FieldRangeWhy = map[string]string{}
+			}
+			cs.FieldRanges["F:"+f[1]] = [2]int64{lo, hi}
+			cs.FieldRangeWhy["F:"+f[1]] = strings.Join(f[4:], " ")
 			cur = nil
 			continue
 		}
@@ -499,6 +525,55 @@ func (cs *Contracts) parseFunc(pkg, file string, e *rawEntry) error {
 		case "site":
 			// site append: requires[label] EXPR
 			rest := strings.TrimSpace(strings.TrimPrefix(c.text, "site"))
+			if strings.HasPrefix(rest, "store ") && !strings.Contains(rest, ": from") {
+				// site store FIELD#N: requires[label] EXPR | site store FIELD#N: ghost NAME = EXPR
+				j := strings.Index(rest, ":")
+				if j < 0 {
+					return fmt.Errorf("line %d: site store FIELD#N: requires EXPR", c.line)
+				}
+				key := strings.TrimSpace(rest[len("store "):j])
+				body := strings.TrimSpace(rest[j+1:])
+				if strings.HasPrefix(body, "use ") {
+					ex, err := parseCExpr(strings.TrimSpace(strings.TrimPrefix(body, "use ")))
+					if err != nil {
+						return fmt.Errorf("line %d: %v", c.line, err)
+					}
+					if fc.StoreUse == nil {
+						fc.StoreUse = map[string][]*CExpr{}
+					}
+					fc.StoreUse[key] = append(fc.StoreUse[key], ex)
+					continue
+				}
+				if strings.HasPrefix(body, "ghost ") {
+					g := strings.TrimSpace(strings.TrimPrefix(body, "ghost "))
+					eq := strings.Index(g, "=")
+					if eq < 0 {
+						return fmt.Errorf("line %d: site store: ghost NAME = EXPR", c.line)
+					}
+					ex, err := parseCExpr(strings.TrimSpace(g[eq+1:]))
+					if err != nil {
+						return fmt.Errorf("line %d: %v", c.line, err)
+					}
+					if fc.StoreGhost == nil {
+						fc.StoreGhost = map[string][]GhostUpdate{}
+					}
+					fc.StoreGhost[key] = append(fc.StoreGhost[key], GhostUpdate{Name: strings.TrimSpace(g[:eq]), Expr: ex, Text: g})
+					continue
+				}
+				label, ex := splitLabel("requires", body)
+				cl, err := mkClause(file, c.line, label, ex)
+				if err != nil {
+					return err
+				}
+				if fc.StoreReq == nil {
+					fc.StoreReq = map[string][]Clause{}
+				}
+				if cl.Label == "" {
+					cl.Label = strconv.Itoa(len(fc.StoreReq[key]))
+				}
+				fc.StoreReq[key] = append(fc.StoreReq[key], cl)
+				continue
+			}
 			if strings.HasPrefix(rest, "store ") {
 				// site store FIELD: from append, callee, ...
 				j := strings.Index(rest, ": from")
@@ -556,9 +631,24 @@ func (cs *Contracts) parseFunc(pkg, file string, e *rawEntry) error {
 			isArr := strings.HasSuffix(gname, "[]")
 			fc.GhostDecls = append(fc.GhostDecls, GhostDecl{Name: strings.TrimSuffix(gname, "[]"), Init: ex, Array: isArr})
 		case "havoccall":
-			for _, m := range strings.Split(strings.TrimSpace(strings.TrimPrefix(c.text, "havoccall")), ",") {
+			// havoccall f, g [keeps T, U]
+			rest := strings.TrimSpace(strings.TrimPrefix(c.text, "havoccall"))
+			var keeps []string
+			if j := strings.Index(rest, " keeps "); j >= 0 {
+				for _, k := range strings.Split(rest[j+len(" keeps "):], ",") {
+					if k = strings.TrimSpace(k); k != "" {
+						keeps = append(keeps, k)
+					}
+				}
+				rest = rest[:j]
+			}
+			for _, m := range strings.Split(rest, ",") {
 				if m = strings.TrimSpace(m); m != "" {
 					fc.HavocCalls = append(fc.HavocCalls, m)
+					if fc.HavocKeeps == nil {
+						fc.HavocKeeps = map[string][]string{}
+					}
+					fc.HavocKeeps[m] = keeps
 				}
 			}
 		case "inlinecall":
